@@ -206,6 +206,9 @@ func (ids *vdkIDs) partListRef(pids []string, ref *vdkTerms) []*pdkg.Participant
 	n := 0
 	for _, l := range [][]string{ref.Join, ref.Rem, ref.Leav} {
 		for _, q := range ids.partList(l) {
+			if q == nil {
+				continue
+			}
 			if _, ok := pos[q.Address]; !ok {
 				pos[q.Address] = n
 				n++
@@ -213,6 +216,9 @@ func (ids *vdkIDs) partListRef(pids []string, ref *vdkTerms) []*pdkg.Participant
 		}
 	}
 	rank := func(q *pdkg.Participant) int {
+		if q == nil {
+			return 1 << 21
+		}
 		if r, ok := pos[q.Address]; ok {
 			return r
 		}
@@ -1095,7 +1101,7 @@ func (s *vdkScen) doTime() {
 	// a running execution whose attempt timed out stores Failed by itself
 	cur, _, _ := s.buckets()
 	if cur != nil && cur.State == Executing && s.tmoID(cur.Timeout) <= s.tick {
-		vlib.Eventually(5*time.Second, func() bool {
+		vlib.Eventually(25*time.Second, func() bool {
 			c, _, _ := s.buckets()
 			return c == nil || c.State != Executing
 		})
